@@ -34,6 +34,9 @@ PROPERTY = 'C16'
 REGION_JUNIT_ACT_SYNTAX_ERROR = 'junit-act-syntax-error'
 REGION_CASE_LISTED_TWICE = 'case-listed-twice'
 REGION_NOTADIR = 'reference-through-regular-file'
+REGION_OVERLONG = 'overlong-file-name'
+REGION_NOT_UTF8 = 'suite-file-not-utf8'
+REGION_JUNIT_CTRL = 'junit-control-characters'
 
 REAL_K1 = (
     'exactly_lib.test_suite.processing.SuitesExecutor',
@@ -149,6 +152,8 @@ LAYOUTS_N01 = [
     ('0', (_S, 0, ())),
     ('1', (_S, 1, ())),
     ('sub1+0', (_S, 0, (('a.suite', 1, ()),))),
+    # an intermediate suite that only groups: no case of its own, one sub-suite
+    ('sub(sub1+0)+0', (_S, 0, (('a.suite', 0, (('b.suite', 1, ()),)),))),
 ]
 LAYOUTS_N2_QUICK = [
     ('sub1+1', (_S, 1, (('a.suite', 1, ()),))),
@@ -258,13 +263,16 @@ FILES = {'1.case': '', '2.case': '', '3.case': '', 'd/x.case': '', 'd/y.case': '
 # catalogue of lines of a [suites] section of a suite file in the fixture's top directory
 SL = ('', 'a.suite', 'b.suite', 'd', 'd/exactly.suite', '*[ab].suite', '*.suite', 'nope.suite', 'e', 'r.suite',
       "'a.suite'", 'a.suite b.suite', '*/exactly.suite', '1.case/x', '[ab].suite', "'*[ab].suite'", '?.suite',
-      'd/../a.suite')
+      'd/../a.suite', "'d' b.suite")
 # catalogue of lines of a [cases] section of a suite file in the fixture's top directory
 CL = ('', '1.case', '2.case', '*.case', '*[23].case', '?.case', 'nope.case', "'*.case'", 'd', 'd/x.case', '**/*.case',
-      'd/*.case', '*', '1.case 2.case', '1.case/x', '*.nomatch', '[12].case', '"1.case"', 'd/../1.case')
+      'd/*.case', '*', '1.case 2.case', '1.case/x', '*.nomatch', '[12].case', '"1.case"', 'd/../1.case',
+      "'1.case' 2.case", "'2.case'  ", '"1.case" "2.case"')
 # text that makes a suite file syntactically invalid
 BROKEN = ('[nosuch]\n', '[conf]\nnosuchinstruction\n', '[suites]\n\'unterminated\n', '[cases]\n1.case superfluous\n',
-          '[cases\n', '[conf]\npreprocessor =\n', '[setup]\nnosuchinstruction\n')
+          '[cases\n', '[conf]\npreprocessor =\n', '[setup]\nnosuchinstruction\n',
+          "[cases]\n'3.case' superfluous\n", '[suites]\n"d" b.suite\n', '[cases]\n"d/x.case"\t\'d/y.case\'\n',
+          b'\xff\xfe\n', b'[cases]\n\xe9.case\n')
 NOTADIR_LINE = '1.case/x'
 
 
@@ -332,6 +340,42 @@ def _sc_dir_arg(x, y):
                 files={'d/sub/w.case': ''}, root='d/exactly.suite', via_dir_arg=True)
 
 
+# [cases] of a suite that only groups other suites: absent, or a glob pattern without matches
+GROUP_CASES = ('', '*.nomatch')
+
+
+def _sc_grouping(x, y):
+    """a.suite (listed by the root) has no case of its own (GROUP_CASES[y]) and its [suites] holds SL[x]; b.suite is a
+    pure grouping suite too (lists the directory d): r -> a -> (b ->) d, cases only at the ends"""
+    return dict(specs={'r.suite': _S(['a.suite'], ['1.case']), 'a.suite': _S([SL[x]], [GROUP_CASES[y]]),
+                       'b.suite': _S(['d'], []), 'd/exactly.suite': _S([], ['y.case', 'x.case'])})
+
+
+# lengths of a file name (one path component); NAME_MAX is 255, PATH_MAX 4096
+NAME_LENGTHS = (1, 6, 254, 255, 256, 257, 300, 4090, 5000)
+NAME_MAX = 255
+
+
+def _long_name(n: int, suffix: str) -> str:
+    return ('n' * n + suffix)[-n:] if n >= len(suffix) else 'n' * n
+
+
+def _sc_long_name(x, y):
+    """a reference that is a plain file name of NAME_LENGTHS[x] characters: y = 0 in [cases], the file exists if a file
+    of that name can exist; y = 1 in [cases], missing; y = 2 in [suites], missing; y = 3 quoted, in [cases], missing"""
+    n = NAME_LENGTHS[x]
+    name = _long_name(n, '.case' if y != 2 else '.suite')
+    files = {}
+    if y == 0 and n <= NAME_MAX:
+        files[name] = ''
+    line = "'%s'" % name if y == 3 else name
+    if y == 2:
+        specs = {'r.suite': _S([line], ['1.case'])}
+    else:
+        specs = {'r.suite': _S([], ['1.case', line])}
+    return dict(specs=specs, files=files, name_length=n)
+
+
 def _sc_outcome(x, y):
     """a valid two-suite hierarchy in which case 2.case ends with outcome x and 1.case with outcome y"""
     return dict(specs={'r.suite': _S(['a.suite'], ['1.case', '3.case']), 'a.suite': _S([], ['2.case'])},
@@ -350,6 +394,8 @@ SCENARIOS = {
     'broken': (_sc_broken, len(BROKEN), 3, 1),
     'dir-arg': (_sc_dir_arg, 9, 1, 2),
     'outcome': (_sc_outcome, L.N_KINDS, 3, 1),
+    'grouping': (_sc_grouping, len(SL), len(GROUP_CASES), 2),
+    'long-name': (_sc_long_name, len(NAME_LENGTHS), 4, 1),
 }
 
 
@@ -393,9 +439,14 @@ def _pre_k2(x: int, y: int, g: int) -> bool:
         sc, _sp, _t, _r = _scenario(c, ob.concrete_int(x, 0, nx - 1), ob.concrete_int(y, 0, ny - 1))
         if L.K_ACT_SYNTAX_ERROR in sc['kinds'].values():
             return False
-    if ob.excluded(REGION_CASE_LISTED_TWICE) or ob.excluded(REGION_NOTADIR):
+    if (ob.excluded(REGION_CASE_LISTED_TWICE) or ob.excluded(REGION_NOTADIR) or ob.excluded(REGION_OVERLONG)
+            or ob.excluded(REGION_NOT_UTF8)):
         sc, specs, tree, root = _scenario(c, ob.concrete_int(x, 0, nx - 1), ob.concrete_int(y, 0, ny - 1))
         if ob.excluded(REGION_NOTADIR) and _uses_notadir(specs):
+            return False
+        if ob.excluded(REGION_OVERLONG) and sc.get('name_length', 0) > NAME_MAX:
+            return False
+        if ob.excluded(REGION_NOT_UTF8) and any(isinstance(sp.broken, bytes) for sp in specs.values()):
             return False
         if ob.excluded(REGION_CASE_LISTED_TWICE) and L.has_case_listed_twice(L.expected_run(tree, specs, root)):
             return False
@@ -471,9 +522,12 @@ REAL_CASES = (
     ('FILE_ACCESS_ERROR', '[setup]\nincluding non-existing.xly\n', 9, ''),
     ('PRE_PROCESS_ERROR', '[assert]\nexit-code == 0\n', 10, '[conf]\npreprocessor = false\n'),
     ('SYNTAX_ERROR', '[setup]\nnosuchinstruction\n', 11, ''),
-    ('unreadable (not UTF-8)', b'\xff\xfe[assert]\n', 12, ''),
+    ('unreadable (not UTF-8)', b'\xff\xfe[assert]\n', 9, ''),  # FILE_ACCESS_ERROR since fix 6de5e53 (INTERNAL_ERROR before)
+    ('HARD_ERROR whose message holds a control character (stderr of a failing program)',
+     "[setup]\n$ printf 'e\\001r' >&2; exit 1\n", 6, ''),
 )
 K3_ACT_SYNTAX_ERROR = 7  # index into REAL_CASES
+K3_CONTROL_CHARACTER = 12  # index into REAL_CASES
 
 
 def _pre_k3(k0: int, k1: int) -> bool:
@@ -485,6 +539,10 @@ def _pre_k3(k0: int, k1: int) -> bool:
     if c['junit'] and ob.excluded(REGION_JUNIT_ACT_SYNTAX_ERROR):
         a, b = _k3_kinds(c, ob.concrete_int(k0, 0, n0 - 1), ob.concrete_int(k1, 0, n1 - 1))
         if K3_ACT_SYNTAX_ERROR in (a, b):
+            return False
+    if c['junit'] and ob.excluded(REGION_JUNIT_CTRL):
+        a, b = _k3_kinds(c, ob.concrete_int(k0, 0, n0 - 1), ob.concrete_int(k1, 0, n1 - 1))
+        if K3_CONTROL_CHARACTER in (a, b):
             return False
     return True
 
@@ -604,6 +662,23 @@ def _k2_obligations(tier: str) -> List[Ob]:
                           'valid two-suite hierarchy; the case of the sub-suite ends with each of the 14 outcomes' + (
                               ', the first case of the root with PASS, FAIL or XFAIL' if tier == 'thorough' else ''),
                           junit=junit, **({} if tier == 'thorough' else dict(ys=[0]))))
+    group_bound = ('a.suite (listed by the root) only groups - its [cases] is absent or a pattern without matches - and its '
+                   '[suites] holds %s; b.suite only groups too (r -> a -> b -> d/exactly.suite is a chain of 4)')
+    if tier == 'quick':
+        obs.append(_k2_ob('grouping', 'grouping', T, group_bound % 'one of 6 lines of SL',
+                          xs=_idx(SL, '', 'b.suite', 'd', "'a.suite'", 'nope.suite', '*/exactly.suite'), ng=1))
+        obs.append(_k2_ob('long-name', 'long-name', T,
+                          'a plain file name of 6, 255, 256, 300 or 5000 characters as reference: in [cases] (existing if it '
+                          'can exist / missing / quoted) or in [suites]',
+                          xs=[NAME_LENGTHS.index(n) for n in (6, 255, 256, 300, 5000)]))
+    else:
+        for junit in (False, True):
+            j = ':junit' if junit else ''
+            obs.append(_k2_ob('grouping' + j, 'grouping', 2 * T, group_bound % ('one line: ' + all_sl) + '; ' + order2,
+                              junit=junit))
+            obs.append(_k2_ob('long-name' + j, 'long-name', T,
+                              'a plain file name of %s characters as reference: in [cases] (existing if it can exist / '
+                              'missing / quoted) or in [suites]' % (NAME_LENGTHS,), junit=junit))
     obs.append(_k2_ob('broken', 'broken', T, 'each of %d syntax errors %r in the root suite file, in a sub-suite or in a '
                                              'sub-sub-suite' % (len(BROKEN), BROKEN)))
     obs.append(_k2_ob('dir-arg', 'dir-arg', T,
@@ -643,10 +718,11 @@ def _k3_obligations(tier: str) -> List[Ob]:
                                   'r.suite [PASS case, PASS case] listing s.suite [one real case file for each of: %s]' % (
                                       ', '.join(REAL_CASES[i][0] for i in k0s)), junit, k0s=k0s, k1s=[0]))
         else:
-            for b in range(0, len(REAL_CASES), 2):
-                # two outcomes of the root's case per obligation (no obligation lies completely inside a region)
-                k1s = [b, b + 1]
-                obs.append(_k3_ob('%d-%d%s' % (b, b + 1, j), 1200,
+            for b in range(0, len(REAL_CASES) - 1, 2):
+                # two outcomes of the root's case per obligation, three in the last (no obligation lies completely
+                # inside a region)
+                k1s = [b, b + 1] + ([b + 2] if b + 3 == len(REAL_CASES) else [])
+                obs.append(_k3_ob('%d-%d%s' % (b, k1s[-1], j), 1200,
                                   'r.suite [%s case, PASS case] listing s.suite [one real case file for each of: %s]' % (
                                       ' or '.join(REAL_CASES[i][0] for i in k1s), names), junit, k1s=k1s))
     obs.append(Ob(name='K3:seeded-oracle-error', fn='k3_whole_program', case=dict(junit=False, oracle_bug=True, k1s=[1]),
